@@ -229,6 +229,9 @@ def worker(spec):
             problems.append("extract_child did not refuse outside an extraction")
         except RuntimeError:
             pass
+        except Exception as ex:
+            # an internal assertion tripping further down is not a refusal (and vanishes under -O)
+            problems.append("extract_child outside an extraction did not refuse; it failed later with %r" % (ex,))
         return problems, list(tls.obs), tls.after_raise, tls.stub_checks
 
     def account(node, obs, after_raise, stubs, threaded):
